@@ -2,6 +2,7 @@
 From Coq Require Import List Arith Bool ZArith.
 Import ListNotations.
 Require Import ExcerptModel Model Spec Refine Within SpanSpec Ordered Entry Finalize.
+Require Visit FinalizeVisit.
 
 (* exactness: the (start, end) pair the generated code stores on an instance is
    the one the specification assigns (class_spec: start = where the class began,
@@ -79,3 +80,16 @@ Example C10_judge_discriminates :
   spans_ordered 0 4 (VList [VObj 1 [] (0, 3); VObj 1 [] (2, 4)]) = false /\
   spans_ordered 0 4 (VObj 2 [VObj 1 [] (0, 5)] (0, 4)) = false.
 Proof. vm_compute. auto. Qed.
+
+(* EVERY class instance of the result is finalised: _finalize_parse_info walks the result with visit, and visit yields
+   every object reachable through lists, tuples, dict values and fields - also below objects that carry no span of
+   their own (operator nodes, objects built by inline Python) and inside shared containers; each is converted once,
+   nothing else is touched.  (wf: an identity stands for one node; identities of containers and objects differ.) *)
+Theorem C10_every_instance_finalised : forall (sub : nat -> list Visit.node) n sp,
+  Visit.wf sub n -> (forall i, In i (Visit.objs n) -> ~ In i (Visit.conts n)) ->
+  exists o sp', FinalizeVisit.finalize_all (Visit.size n) n sp = Some sp' /\ NoDup o
+    /\ (forall i, In i (Visit.objs n) -> In i o)
+    /\ (forall i, In i o -> sp' i = FinalizeVisit.conv (sp i))
+    /\ (forall i, ~ In i o -> sp' i = sp i).
+Proof. exact FinalizeVisit.finalize_reaches_every_instance. Qed.
+Print Assumptions C10_every_instance_finalised.
